@@ -233,6 +233,9 @@ def run_world(case, sdk, checks):
                     w.flag(i, "bad-key-accepted", "UpdateItem with a missing/ill-typed key returned " + json.dumps(o)[:80])
                 continue
             if k == "item":
+                if "native" in checks and w.native and (op["table"], norm_ws(hx(op.get("expr", "")))) not in w.updaters:
+                    w.flag(i, "native-update-without-updater", "with the native interpreter active and no updater registered for this table and "
+                           "expression, UpdateItem must fail as unsupported; it succeeded", impl=o)
                 if "cond" in checks and cond_expect is not None and "T" not in cond_expect:
                     w.flag(i, "cond-should-fail", "conditional UpdateItem succeeded although the condition is %s" % sorted(cond_expect), impl=o)
                 res = o["item"]
@@ -653,7 +656,7 @@ CHECKS = {
     "C17": {"crash"},
     "C18": {"lifecycle", "index", "observe", "crash"},
     "C19": {"batch", "map", "observe", "crash"},
-    "C20": {"search", "cond", "observe", "crash"},
+    "C20": {"search", "cond", "observe", "crash", "native"},
 }
 
 
@@ -755,7 +758,7 @@ def judge_match(prop, case):
     if prop == "C09" or "tree" not in case or case["tree"] is None:
         return []
     if case.get("bareReserved"):
-        if letter != "E":
+        if letter != "E" and prop != "C12":
             return [{"sig": "reserved-accepted", "why": "a reserved word used as a bare attribute name was accepted: %r" % case.get("text")}]
         return []
     if prop == "C16":
@@ -765,8 +768,31 @@ def judge_match(prop, case):
     except Exception as e:
         return []
     if letter not in allowed:
+        if prop == "C12":
+            # only outcomes that the deviations unrelated to numbers do not explain are C12's business
+            try:
+                other = evalc(case["tree"], case["item"], spec.Opts(root_scalar_err=True, path_operand_err=True, contains_subset=True))
+            except Exception:
+                other = allowed
+            if letter in other or not mentions_number(case):
+                return []
         return [{"sig": "truth-value", "why": "%r evaluates to %s, DynamoDB semantics allow %s" % (case.get("text"), letter, sorted(allowed))}]
     return []
+
+
+def has_number(av):
+    t = tag(av)
+    if t in ("N", "NS"):
+        return True
+    if t == "L":
+        return any(has_number(e) for e in av["L"])
+    if t == "M":
+        return any(has_number(e) for _, e in av["M"])
+    return False
+
+
+def mentions_number(case):
+    return any(has_number(v) for _, v in list(case.get("item") or []) + list(case.get("values") or []))
 
 
 def judge_update(prop, case):
@@ -783,7 +809,7 @@ def judge_update(prop, case):
             return [{"sig": "reserved-accepted", "why": "a reserved word used as a bare attribute name was accepted: %r" % case.get("text")}]
         return []
     if case.get("bareReserved"):
-        if k == "ok":
+        if k == "ok" and prop != "C12":
             return [{"sig": "reserved-accepted", "why": "a reserved word used as a bare attribute name was accepted: %r" % case.get("text")}]
         return []
     try:
@@ -795,10 +821,17 @@ def judge_update(prop, case):
     except Exception:
         return []
     if k != "ok":
+        if prop == "C12":
+            return []       # a rejection is not about the value of a number
         return [{"sig": "update-rejected", "why": "%r was rejected (%s) although it is a valid update of the item" % (case.get("text"), json.dumps(o))}]
     if canon_item(want) != canon_item(o["ok"]):
         diff = [h2s(a) for a in sorted(set(x[0] for x in want) | set(x[0] for x in o["ok"]))
                 if repr(canon(item_get(want, a)) if item_get(want, a) is not MISSING else None) != repr(canon(item_get(o["ok"], a)) if item_get(o["ok"], a) is not MISSING else None)]
+        if prop == "C12":
+            numeric = [a for a in sorted(set(x[0] for x in want) | set(x[0] for x in o["ok"]))
+                       if (item_get(want, a) is not MISSING and has_number(item_get(want, a))) or (item_get(o["ok"], a) is not MISSING and has_number(item_get(o["ok"], a)))]
+            if not any(h2s(a) in diff for a in numeric):
+                return []
         return [{"sig": "update-result", "why": "%r produced another item than DynamoDB semantics define; attributes that differ: %s" % (case.get("text"), diff), "differ": diff}]
     return []
 
